@@ -25,7 +25,7 @@ func (o c15op) String() string { return fmt.Sprintf("%s(%04X,%02X,n=%d)", o.Op, 
 
 // C15 — DumbMemory, DumbIO, MapMemory against a trivial model.
 func runC15(c *Ctx) {
-	nseq := c.Pick(5000, 500000)
+	nseq := c.Pick(5000, 200000)
 	var mu sync.Mutex
 	var evals, ops, sweeps, panics int64
 	distinct := mon.NewDistinct(2_000_000)
